@@ -150,3 +150,23 @@ def blossom_class(x):
     if m['ok'] is None:
         return 'matching-no-blossom' if d.one(['haspm', g]) else None
     return None if d.one(['ispm', g, m['ok']]) else 'matching-no-blossom'
+
+
+FUSED = ['c1ccc2ccccc2c1', 'c1ccc2[nH]ccc2c1', 'c1ccc2c(c1)[nH]c1ccccc12', 'c1ccc2c(c1)Cc1ccccc12', 'c1ccc2c(c1)c1ccccc21', 'c1ccc2cc3ccccc3cc2c1', 'c1ccc2occc2c1',
+         'c1ccc2sccc2c1', 'c1ccc2ncccc2c1', 'c1cnc2ccccc2n1', 'c1ccc2c(c1)ccc1ccccc12', 'c1cc2ccc3cccc4ccc(c1)c2c34', 'c1ccc2c(c1)oc1ccccc12', 'c1ccc2c(c1)sc1ccccc12',
+         'O=C1c2ccccc2-c2ccccc12', 'c1ccc(cc1)-c1ccccc1', 'c1ccc2c(c1)-c1cccc3cccc-2c13']
+
+
+def ring_symbol_cases(rng, n):
+    """aromatic ring closures that need an explicit bond symbol (declared-single fusion bonds, biaryl bonds inside rings),
+    written with the symbol on the opening digit only, on the closing digit only, or at random"""
+    out = []
+    while len(out) < n:
+        m = mol_of(rng.choice(FUSED))
+        if m is None:
+            continue
+        m2 = gen_smiles.mutate_mol(m, rng) if rng.random() < 0.7 else m
+        for _ in range(3):
+            x, _o = gen_smiles.respell(m2, rng, ring_sym=rng.choice(['open', 'open', 'close', None]), digits_after_branches=0.2)
+            out.append(x)
+    return out
